@@ -223,7 +223,7 @@ func checkRange(r *rep.Reporter, kind, via string, size int64, full []byte, h st
 func runC11(c *Ctx) {
 	r := c.R
 	maxSize := r.Pick(12, 64)
-	r.SetRule(fmt.Sprintf("object sizes 0..%d exhaustively x first,last,suffix in -1..size+2 in all three forms, boundary values around 2^31/2^63/2^64, whitespace, signs, multiple ranges, other units, plus a 70001-byte object with boundary and random ranges; on the directory-backed filesystem backends also files the server did not write (dropped into its directory before it starts, or rewritten behind its back) whose very first access is a ranged GET; on the memory backend also current and noncurrent versions read by ?versionId; every backend, HTTP GET and Go Backend.GetObject; distinct = (backend, via, size, header)", maxSize))
+	r.SetRule(fmt.Sprintf("object sizes 0..%d exhaustively x first,last,suffix in -1..size+2 in all three forms, boundary values around 2^31/2^63/2^64, whitespace, signs, zero-padded positions, multiple ranges, other units, plus a 70001-byte object with boundary and random ranges; on the directory-backed filesystem backends also files the server did not write (dropped into its directory before it starts, or rewritten behind its back) whose very first access is a ranged GET; on the memory backend also current and noncurrent versions read by ?versionId; every backend, HTTP GET and Go Backend.GetObject; distinct = (backend, via, size, header)", maxSize))
 	r.Exhaustive(true)
 	r.Set("exhaustive_scope", fmt.Sprintf("sizes 0..%d x {first-last, first-, -suffix} with values -1..size+2 on 6 backends via HTTP and Go API", maxSize))
 	kinds := drv.AllKinds
@@ -302,6 +302,12 @@ func runC11(c *Ctx) {
 				headers = append(headers, fmt.Sprintf("bytes=-%d", n))
 				structured = append(structured, gofakes3.ObjectRangeRequest{FromEnd: true, End: int64(n)})
 			}
+			// positions are decimal however many zeros lead them ('010' is ten, '08' is eight)
+			for f := 0; f <= j.size+2; f += 1 + j.size/6 {
+				for l := f; l <= j.size+2; l += 1 + j.size/5 {
+					headers = append(headers, fmt.Sprintf("bytes=%02d-%03d", f, l), fmt.Sprintf("bytes=%03d-", f), fmt.Sprintf("bytes=-%02d", l), fmt.Sprintf("bytes=0%d-0%d", f, l))
+				}
+			}
 			if j.size == 0 || j.size == 1 || j.size == 5 || j.size == maxSize {
 				headers = append(headers, specials...)
 				for _, e := range []int64{1 << 31, 1<<62 + 1, 1<<63 - 2, 1<<63 - 1} {
@@ -330,7 +336,8 @@ func runC11(c *Ctx) {
 				headers = append(headers, fmt.Sprintf("bytes=%d-%d", a, b))
 				structured = append(structured, gofakes3.ObjectRangeRequest{Start: a, End: b})
 			}
-			headers = append(headers, "bytes=0-9223372036854775807", "bytes=32768-9223372036854775807", "")
+			headers = append(headers, "bytes=0-9223372036854775807", "bytes=32768-9223372036854775807", "",
+				"bytes=010-", "bytes=-010", "bytes=0-010", "bytes=08-09", "bytes=0000012-0000034", "bytes=007-010", "bytes=0100-0777", "bytes=-0100", "bytes=065536-", "bytes=00-070000", "bytes=00000000000000000000000070000-")
 		}
 		for _, h := range headers {
 			q := &drv.Req{Method: "GET", Path: drv.ObjPath(bucket, key)}
